@@ -3,6 +3,7 @@ C02 — Every update is applied exactly once; nothing lost, nothing doubled.
 -/
 import DefraModel.Proofs.CrdtFolds
 import DefraModel.Proofs.CrdtWalk
+import DefraModel.Proofs.CrdtIsMerged
 namespace Defra.Props.C02
 open Defra Defra.Crdt
 
@@ -82,6 +83,22 @@ theorem walk_reaches_every_unmerged_ancestor (bs : Blocks) (heads : List Nat) (c
     (b : Block) (hb : bs.get? x = some b) (hnm : isMerged bs heads x b.height = false) :
     b ∈ (loadComposites bs heads (bs.length + 1) c ([], [])).1 :=
   (walk_reaches bs heads c x hp).2 b hb hnm
+
+/-- **A merged commit is always recognised (nothing doubled).** In a well-formed block store (every parent stored
+    and strictly lower: C04) a stored commit that is a head or an ancestor of a head is reported as merged, so the
+    walk never collects it again; with `walk_skips_only_merged`, `isMerged` decides exactly "head or ancestor of a
+    head". The fuel `length + 2` provably suffices (heights strictly decrease along a path). -/
+theorem merged_commit_is_recognised (bs : Blocks) (wf : WellFormed bs) (heads : List Nat) (t : Nat) (tb : Block)
+    (ht : bs.get? t = some tb) : isMerged bs heads t tb.height = true ↔ Reach bs heads t :=
+  isMerged_iff bs wf heads t tb ht
+
+/-- a well-formed store exists and the statement is not vacuous: the diamond 1 <- {2, 3} <- 4 -/
+def diamondStore : Blocks :=
+  [⟨1, .comp, "d", 1, [], [], .comp false⟩, ⟨2, .comp, "d", 2, [1], [], .comp false⟩,
+   ⟨3, .comp, "d", 2, [1], [], .comp false⟩, ⟨4, .comp, "d", 3, [2, 3], [], .comp false⟩]
+
+example : isMerged diamondStore [4] 1 1 = true ∧ isMerged diamondStore [2] 3 2 = false ∧
+    ((loadComposites diamondStore [2] 5 4 ([], [])).1.map (·.id)) = [3, 4] := by decide
 
 /-! non-vacuity -/
 def inc1 : Block := ⟨2, .field "points", "d", 1, [], [], .ctr 1⟩
